@@ -33,16 +33,17 @@ fn main() {
         vec![0, 1, 0x7FFF_FFFF, 0x8000_0000, 0x8000_0001, 0xFFFF_FFFF, 0xDEAD_BEEF, 0x7FFF_FFFFu32.wrapping_add(12345),
              2, 0xFFFF_FFFE, 0x0000_FFFF, 0x0001_0000, 0x5555_5555, 0xAAAA_AAAA, 0x4000_0000, 0xC000_0000]
     } else {
-        vec![0, 0x7FFF_FFFF, 0x8000_0000, 0xFFFF_FFFF, 0xDEAD_BEEF]
+        vec![0, 0x7FFF_FFFF, 0xFFFF_FFFF, 0xDEAD_BEEF]
     };
 
     // (1) comparison over all differences
     let sp = ctx.space("cmp.all_differences",
-        "for each base b and every d in 0..2^32: partial_cmp(b, b+d), partial_cmp(b+d, b), ==, against the RFC 1982 integer model; non-trivial = every (b,d) pair is distinct by construction; counted: pairs with d != 0");
+        "for each base b and every d in 0..2^32: partial_cmp(b, b+d), partial_cmp(b+d, b), ==, and the operators <, <=, >, >=, against the RFC 1982 integer model; non-trivial = every (b,d) pair is distinct by construction; counted: pairs with d != 0");
     for &b in &bases {
         par_chunks(1u64 << 32, 1 << 22, |lo, hi| {
             let mut local: BTreeMap<&'static str, u64> = BTreeMap::new();
             let mut bad: Option<(u32, String)> = None;
+            let mut bad_ops: Option<(u32, String)> = None;
             let (mut n_less, mut n_gr, mut n_eq, mut n_un) = (0u64, 0u64, 0u64, 0u64);
             for d in lo..hi {
                 let d = d as u32;
@@ -56,6 +57,18 @@ fn main() {
                         bad = Some((d, format!("partial_cmp={:?} reverse={:?} eq={} expected {:?}", got, got_r, eq, want)));
                     }
                 }
+                // the comparison operators (which a type may override separately from
+                // partial_cmp) must tell the same story: at distance 2^31 none of them holds
+                let ops = (x < y, x <= y, x > y, x >= y);
+                let want_ops = match want {
+                    None => (false, false, false, false),
+                    Some(Ordering::Less) => (true, true, false, false),
+                    Some(Ordering::Equal) => (false, true, false, true),
+                    Some(Ordering::Greater) => (false, false, true, true),
+                };
+                if ops != want_ops && bad_ops.is_none() {
+                    bad_ops = Some((d, format!("(<,<=,>,>=)={:?} expected {:?}", ops, want_ops)));
+                }
                 match got { None => n_un += 1, Some(Ordering::Less) => n_less += 1, Some(Ordering::Equal) => n_eq += 1, Some(Ordering::Greater) => n_gr += 1 }
             }
             local.insert("less", n_less); local.insert("greater", n_gr); local.insert("equal", n_eq); local.insert("undefined", n_un);
@@ -65,6 +78,9 @@ fn main() {
             sp.nontrivial(hi - lo - if lo == 0 { 1 } else { 0 });
             if let Some((d, detail)) = bad {
                 ctx.fail("C16.cmp", format!("base={b:#x} d={d:#x}"), detail);
+            }
+            if let Some((d, detail)) = bad_ops {
+                ctx.fail("C16.cmp.operators", format!("base={b:#x} d={d:#x}"), detail);
             }
         });
         sp.sample_str(|| format!("base={b:#x}: d=1 -> {}, d=0x7fffffff -> {}, d=0x80000000 -> {}, d=0x80000001 -> {}",
@@ -79,7 +95,7 @@ fn main() {
     // (2) add
     let sp = ctx.space("add.all_increments",
         "for each base b and every n in 0..2^31: b.add(n) == b+n mod 2^32 and (n>0 => b.add(n) > b, b < b.add(n)); n >= 2^31 must panic (boundary values); non-trivial = n > 0");
-    let add_bases: Vec<u32> = if ctx.tier.is_thorough() { bases.clone() } else { vec![0, 0x8000_0001, 0xFFFF_FFFF] };
+    let add_bases: Vec<u32> = if ctx.tier.is_thorough() { bases.clone() } else { vec![0x8000_0001, 0xFFFF_FFFF] };
     for &b in &add_bases {
         par_chunks(1u64 << 31, 1 << 22, |lo, hi| {
             let mut bad = None;
